@@ -5507,7 +5507,8 @@ class CodegenCtx:
             return f"state->{intexpr.ref.name}_counter";
         elif isinstance(intexpr, StringRefIntegerExpr):
             index = self._generate_code_for_int_expr(intexpr.index, ctx)
-            text = self._generate_buflike_index_expr(intexpr.ref, index)
+            # read the element as a byte value whatever the string's element type is (plain char may be signed)
+            text = "(uint8_t)" + self._generate_buflike_index_expr(intexpr.ref, index)
             size_str = self._generate_buflike_length_expr(intexpr.ref)
             if ProgramData.do(ProgramFlag.UNSAFE_STRING_INDEXING):
                 return text
